@@ -17,7 +17,7 @@ from contracts.c13_caches import SMeta, Data, ST, state_wf
 
 QArg = Opaque("Any")
 Any = Opaque("Any")
-classdef("liquer.context.Vars", fields={})
+classdef("liquer.context.Vars", fields=dict(src=Any))       # the variables of a context; `src` (ghost): the dictionary they were taken from
 classdef("liquer.context.Context",
          fields=dict(query=Opt(Ref("Query")), raw_query=Opt(Str), status=Str, _metadata=Any, vars=Ref("Vars"), evaluated_key=Opt(Str), cwd_key=Opt(Str),
                      enable_store_metadata=Bool, parent_query=Opt(Str), store_key=Opt(Str), store_to=Opt(Ref("TargetStore")), started=Str,
@@ -29,6 +29,13 @@ classdef("TargetStore", abstract=True, fields={})       # the store an evaluatio
 @spec(params=dict(q=Ref("Query")), returns=Str, uninterpreted=True)
 def canonical(q):
     return canonical(q)
+
+
+@assumed("liquer.context.Vars.__init__", params=dict(self=Ref("Vars"), d=Any))
+def _(self, d):
+    """Vars(d): a dictionary initialised from d"""
+    modifies(self.src)
+    ensures(self.src == d)
 
 
 @assumed("liquer.parser.Query.encode", params=dict(self=Ref("Query")), returns=Str, pure=True)
